@@ -48,6 +48,11 @@ type bodyElement struct {
 // paragraphXML represents a paragraph element (<text:p>).
 //
 // Spans holds the paragraph's inline content in document order (see
+// maxSpaceRun is the longest run of spaces one <text:s text:c="N"/> expands to.
+// The count comes from the file and sizes the string that is built: a single
+// element with text:c="2147483647" asked for 2 GiB of spaces.
+const maxSpaceRun = 1024
+
 // decodeInlineContent): character data directly inside the paragraph is carried
 // as a span without style name, so Text stays empty after decoding.
 type paragraphXML struct {
@@ -144,6 +149,9 @@ func decodeInlineContent(d *xml.Decoder, styleName string) ([]spanXML, error) {
 				count := 1
 				if c, err := strconv.Atoi(attrValue(t, "c")); err == nil && c > 0 {
 					count = c
+				}
+				if count > maxSpaceRun {
+					count = maxSpaceRun
 				}
 				text = strings.Repeat(" ", count)
 			case "tab":
